@@ -297,9 +297,27 @@ fn parse_word(w: &str) -> W {
 
 /// Written file names: components of letters and dots, separated by `/`; no empty component,
 /// none starting with a dot (areas, `./`, `//`, hidden files are outside this harness).
+/// Characters of the categories 1-4 and 6-8 under the catcode table the VM starts with (plain
+/// TeX's): they are character tokens and so belong to a file name (TeX §526).
+const NAME_SPECIALS: &str = "{}$&#^_";
+
+fn cat_of(c: char) -> u32 {
+    match c {
+        '{' => 1,
+        '}' => 2,
+        '$' => 3,
+        '&' => 4,
+        '#' => 6,
+        '^' => 7,
+        '_' => 8,
+        c if c.is_ascii_alphabetic() => 11,
+        _ => 12,
+    }
+}
+
 fn valid_written_name(n: &str) -> bool {
     !n.is_empty()
-        && n.split('/').all(|c| !c.is_empty() && !c.starts_with('.') && c.chars().all(|x| x.is_ascii_alphabetic() || x == '.' || x == ':' || x == '>' || (x as u32) > 127))
+        && n.split('/').all(|c| !c.is_empty() && !c.starts_with('.') && c.chars().all(|x| x.is_ascii_alphabetic() || x == '.' || x == ':' || x == '>' || NAME_SPECIALS.contains(x) || (x as u32) > 127))
 }
 
 /// Case strings are ASCII: in a file name every character other than an ASCII letter, `.` and
@@ -388,6 +406,24 @@ impl Resolver {
         };
         self.0.insert((mode, w.to_string()), r.clone());
         r
+    }
+    /// The Lean token rules (code and TeX §526) applied to the tokens of `w` followed by a
+    /// space: both must give `w` itself and consume the space (else the harness's "\input w␣ is
+    /// one atom" abstraction would not be the specification's reading).
+    fn name_is_whole(&mut self, w: &str, drv: &mut Driver) -> bool {
+        if let Some(r) = self.0.get(&(9, w.to_string())) {
+            return r == "1";
+        }
+        let mut v: Vec<u32> = vec![];
+        for c in w.chars() {
+            v.push(c as u32);
+            v.push(cat_of(c));
+        }
+        v.extend([32, 10]);
+        let want = format!("{} {}", w.chars().count() + 1, join(&w.chars().map(|c| c as u32).collect::<Vec<_>>()));
+        let ok = (0..2).all(|mode| drv.ask(&format!("nt {mode} {}", join(&v))) == want);
+        self.0.insert((9, w.to_string()), if ok { "1".into() } else { "0".into() });
+        ok
     }
     /// For every written name the index of the file it denotes, if that file exists.
     fn bind(&mut self, mode: u8, written: &[String], files: &[SrcFile], drv: &mut Driver) -> Vec<Option<usize>> {
@@ -554,11 +590,22 @@ fn enc_atom(w: &W, names: &mut Names, out: &mut Vec<i64>) {
 struct SrcFile {
     name: String,
     nl: bool,
+    /// line terminators: 0 = LF, 1 = CRLF, 2 = mixed (CRLF after even lines, LF after odd ones).
+    /// The code splits at `\n` only; the `\r` stays in the line, where it is a character of
+    /// category 5: it acts as the end of the line (the appended \endlinechar after it is
+    /// dropped with the rest of the line), so under the default \endlinechar a CRLF file gives
+    /// the same tokens and the same number of lines as the LF file. (A lone `\r` inside a line
+    /// would likewise end the line there and drop the rest of it; not generated.) CRLF is only
+    /// used where \endlinechar keeps its default.
+    eol: u8,
     lines: Vec<Vec<W>>,
 }
 
 impl SrcFile {
     fn text(&self) -> String {
+        self.text_with(true)
+    }
+    fn text_with(&self, crlf_ok: bool) -> String {
         let mut s = String::new();
         for (i, l) in self.lines.iter().enumerate() {
             // blanks that the lexer must not turn into tokens: at the start of a line (also of
@@ -573,6 +620,9 @@ impl SrcFile {
                 s.push_str("  ");
             }
             if i + 1 < self.lines.len() || self.nl {
+                if crlf_ok && (self.eol == 1 || (self.eol == 2 && i % 2 == 0)) {
+                    s.push('\r');
+                }
                 s.push('\n');
             }
         }
@@ -592,7 +642,17 @@ impl SrcFile {
         self
     }
     fn show(&self, label: &str) -> String {
-        let mut s = format!("{label}{}:", if self.nl { '+' } else { '-' });
+        // `+`/`-`: LF, with / without a terminator after the last line; `*`/`~`: the same with
+        // CRLF; `^`/`_`: mixed
+        let flag = match (self.eol, self.nl) {
+            (0, true) => '+',
+            (0, false) => '-',
+            (1, true) => '*',
+            (1, false) => '~',
+            (_, true) => '^',
+            (_, false) => '_',
+        };
+        let mut s = format!("{label}{flag}:");
         for l in &self.lines {
             for w in l {
                 s.push(' ');
@@ -627,6 +687,17 @@ fn split_lines(content: &str) -> Vec<Vec<W>> {
     lines
 }
 
+fn flag_of(l: &str) -> (bool, u8) {
+    match l.chars().last() {
+        Some('-') => (false, 0),
+        Some('*') => (true, 1),
+        Some('~') => (false, 1),
+        Some('^') => (true, 2),
+        Some('_') => (false, 2),
+        _ => (true, 0),
+    }
+}
+
 fn parse_file_section(label: &str, content: &str) -> Option<SrcFile> {
     let (l, lit) = if let Some(l) = label.strip_prefix("f:") {
         (l, false)
@@ -635,12 +706,12 @@ fn parse_file_section(label: &str, content: &str) -> Option<SrcFile> {
     } else {
         return None;
     };
-    let nl = !l.ends_with('-');
-    let l = if l.ends_with(['+', '-']) { &l[..l.len() - 1] } else { l };
+    let (nl, eol) = flag_of(l);
+    let l = if l.ends_with(['+', '-', '*', '~', '^', '_']) { &l[..l.len() - 1] } else { l };
     let l = &decode_name(l);
     assert!(valid_written_name(l), "bad file name {l}");
     let name = if lit { format!("={l}") } else { l.to_string() };
-    Some(SrcFile { name, nl, lines: split_lines(content) }.canon())
+    Some(SrcFile { name, nl, eol, lines: split_lines(content) }.canon())
 }
 
 fn split_label(sec: &str) -> (&str, &str) {
@@ -663,10 +734,12 @@ impl InCase {
             }
             let (label, content) = split_label(sec);
             if let Some(l) = label.strip_prefix("main") {
-                main = Some(SrcFile { name: "main".into(), nl: l != "-", lines: split_lines(content) }.canon());
+                let (nl, eol) = flag_of(l);
+                main = Some(SrcFile { name: "main".into(), nl, eol, lines: split_lines(content) }.canon());
             } else if let Some(l) = label.strip_prefix("m:") {
                 let body: Vec<W> = content.split_ascii_whitespace().map(parse_word).collect();
                 assert!(body.iter().all(|w| !matches!(w, W::Call(_) | W::Comment | W::Bg | W::Eg)), "macro bodies: characters, spaces, cs, input, endinput");
+                assert!(body.iter().all(|w| !matches!(w, W::Input(n) if n.contains(['#', '{', '}']))), "macro bodies: no # {{ }} in file names (they are written inside \\def)");
                 let mut b = normalize(&body, true);
                 while b.first() == Some(&W::Sp) {
                     b.remove(0);
@@ -1024,7 +1097,8 @@ impl RdCase {
         format!("rd {}", join(&v))
     }
     fn file_texts(&self) -> Vec<(String, String)> {
-        self.files.iter().map(|f| (literal_name(&f.name), f.text())).collect()
+        let crlf_ok = !self.ops.iter().any(|o| matches!(o, ROp::SetElc(_)));
+        self.files.iter().map(|f| (literal_name(&f.name), f.text_with(crlf_ok))).collect()
     }
     fn main_text(&self) -> String {
         let mut s = String::new();
@@ -1084,10 +1158,29 @@ struct TreeGen<'a> {
     next_name: usize,
     /// the file just generated ends with `\p`: its argument is the next token of the outer file
     want_arg: bool,
+    specials_ok: bool,
 }
 
 impl<'a> TreeGen<'a> {
     fn fresh_name(&mut self) -> String {
+        let s = self.fresh_plain_name();
+        // characters of the categories 1-8 inside the name (never for files that macro bodies
+        // name: those are written inside \def)
+        if self.specials_ok && self.r.chance(1, 6) {
+            let x = *self.r.pick(&["_", "&", "#", "^", "$", "{", "}", "{}", "_^"]);
+            let (dir, base) = match s.rfind('/') {
+                Some(j) => (s[..=j].to_string(), s[j + 1..].to_string()),
+                None => (String::new(), s.clone()),
+            };
+            return match self.r.below(3) {
+                0 => format!("{dir}{base}{x}z"),
+                1 => format!("{dir}q{x}{base}"),
+                _ => format!("{dir}{base}{x}"),
+            };
+        }
+        s
+    }
+    fn fresh_plain_name(&mut self) -> String {
         let n = self.next_name;
         self.next_name += 1;
         let mut s = String::new();
@@ -1139,7 +1232,8 @@ impl<'a> TreeGen<'a> {
             lines.push(l);
         }
         let nl = self.r.chance(2, 3);
-        self.files.push(SrcFile { name: name.clone(), nl, lines });
+        let eol = *self.r.pick(&[0, 0, 1, 2]);
+        self.files.push(SrcFile { name: name.clone(), nl, eol, lines });
         self.pure_files.push(name.clone());
         name
     }
@@ -1275,7 +1369,14 @@ impl<'a> TreeGen<'a> {
             lines.push(l);
         }
         let nl = self.r.chance(2, 3);
-        SrcFile { name, nl, lines }
+        // endings: further blank lines after the last one
+        if !self.want_arg && self.r.chance(1, 5) {
+            for _ in 0..1 + self.r.below(2) {
+                lines.push(vec![]);
+            }
+        }
+        let eol = *self.r.pick(&[0, 0, 1, 2]);
+        SrcFile { name, nl, eol, lines }
     }
     /// Directly after an `\input` whose file has just been generated.
     fn after_input(&mut self, l: &mut Vec<W>) {
@@ -1290,7 +1391,7 @@ impl<'a> TreeGen<'a> {
         }
     }
     fn case(r: &'a mut Rng, structure: bool, max_depth: usize) -> InCase {
-        let mut g = TreeGen { r, files: vec![], pure_files: vec![], macros: vec![], open: vec![], structure, max_depth, next_name: 0, want_arg: false };
+        let mut g = TreeGen { r, files: vec![], pure_files: vec![], macros: vec![], open: vec![], structure, max_depth, next_name: 0, want_arg: false, specials_ok: false };
         for _ in 0..g.r.below(3) {
             g.pure_file(1);
         }
@@ -1310,6 +1411,7 @@ impl<'a> TreeGen<'a> {
             }
             g.macros.push(((b'a' + k as u8) as char, b));
         }
+        g.specials_ok = true;
         let mut main = g.file("main".into(), 0);
         // close what is still open
         let mut closing = vec![];
@@ -1349,7 +1451,7 @@ fn add_name_variants<'a>(files: &'a mut Vec<SrcFile>, mut words: Vec<&'a mut W>,
                     if r.chance(1, 3) {
                         lines.push(vec![W::Chr((b'0' + k) as char)]);
                     }
-                    files.push(SrcFile { name: format!("={st}{v}"), nl: r.chance(2, 3), lines });
+                    files.push(SrcFile { name: format!("={st}{v}"), nl: r.chance(2, 3), eol: *r.pick(&[0, 0, 1, 2]), lines });
                 }
             }
         }
@@ -1449,7 +1551,11 @@ fn gen_rd(r: &mut Rng, wide: bool) -> RdCase {
                 _ => format!("e\u{301}.d/{name}"),
             };
         }
-        files.push(SrcFile { name, nl: r.chance(2, 3), lines }.canon());
+        // line terminators LF / CRLF / mixed; endings: none, one, or further blank lines
+        for _ in 0..*r.pick(&[0u64, 0, 0, 1, 2]) {
+            lines.push(vec![]);
+        }
+        files.push(SrcFile { name, nl: r.chance(2, 3), eol: *r.pick(&[0, 0, 1, 2]), lines }.canon());
     }
     let nterm = *r.pick(&[0u64, 1, 3, 6, 10, 14, 20]);
     let term: Vec<Vec<W>> = (0..nterm).map(|_| normalize(&gen_rd_line(r), false)).collect();
@@ -1575,6 +1681,14 @@ impl C19 {
         // Which file each written name denotes: by the code (M), by TeX (S), by the unrepaired
         // code (only to name finding C19-c).
         let written = c.written_names();
+        for w in &written {
+            if !self.res.name_is_whole(w, drv) {
+                out.fail(Kind::ModelVsSpec, "in", "name: the token rule does not read the written name as one name", w.clone());
+            }
+            if w.chars().any(|x| NAME_SPECIALS.contains(x)) {
+                out.tag("name:character-of-category-1-to-8");
+            }
+        }
         let b_code = self.res.bind(0, &written, &c.files, drv);
         let b_tex = self.res.bind(1, &written, &c.files, drv);
         let b_leg = self.res.bind(2, &written, &c.files, drv);
@@ -1804,6 +1918,14 @@ TeX: {b_tex:?}"));
         let mut out = CaseOutcome::default();
         out.nontrivial = c.ops.iter().any(|o| matches!(o, ROp::Read(..) | ROp::GRead(..)));
         let written = c.written_names();
+        for w in &written {
+            if !self.res.name_is_whole(w, drv) {
+                out.fail(Kind::ModelVsSpec, "rd", "name: the token rule does not read the written name as one name", w.clone());
+            }
+            if w.chars().any(|x| NAME_SPECIALS.contains(x)) {
+                out.tag("name:character-of-category-1-to-8");
+            }
+        }
         let b_code = self.res.bind(0, &written, &c.files, drv);
         let b_tex = self.res.bind(1, &written, &c.files, drv);
         let b_leg = self.res.bind(2, &written, &c.files, drv);
@@ -1964,9 +2086,9 @@ fn lim_case(n: i64, v: i64) -> InCase {
         } else {
             l.push(W::Chr('X'));
         }
-        files.push(SrcFile { name: name(k), nl: k % 2 == 0, lines: vec![l] });
+        files.push(SrcFile { name: name(k), nl: k % 2 == 0, eol: (k % 3) as u8, lines: vec![l] });
     }
-    let main = SrcFile { name: "main".into(), nl: true, lines: vec![if n > 0 { vec![W::Chr('M'), W::Input(name(1)), W::Chr('N')] } else { vec![W::Chr('M')] }] };
+    let main = SrcFile { name: "main".into(), nl: true, eol: 0, lines: vec![if n > 0 { vec![W::Chr('M'), W::Input(name(1)), W::Chr('N')] } else { vec![W::Chr('M')] }] };
     InCase { main, macros: vec![], files }
 }
 
@@ -2041,6 +2163,13 @@ impl Property for C19 {
             "f:a+: e /",
             "f:a+: X \\relax /",
             "f:a-: X _ Y / / ",
+            // CRLF / mixed terminators, blank last lines
+            "f:a*: X / /",
+            "f:a*: X / / /",
+            "f:a^: X / Y / /",
+            "f:a*: /",
+            "f:a~: X / Y /",
+            "f:a+: X / / /",
         ];
         let inserts: &[&str] = &["i:a", "e", "m:a", "m:b", "i:a e", "i:a i:a"];
         for n in 0..=3usize {
@@ -2075,6 +2204,12 @@ impl Property for C19 {
             "f:a+: { } / { { } / } /",
             "f:a+: A / / B /",
             "f:a-: \\relax / A \\ua /",
+            "f:a*: A / /",
+            "f:a*: A / B / / /",
+            "f:a^: A / B / /",
+            "f:a*: /",
+            "f:a*: A { / B } / /",
+            "f:a~: A / B /",
         ];
         for sh in rd_shapes {
             for k in 0..=5 {
@@ -2128,6 +2263,26 @@ impl Property for C19 {
                     v.push(format!("in main+: Y i:{we} Z / ; {}", secs.join(" ; ")));
                     v.push(format!("in main+: m:a / ; m:a: Y i:{we} Z ; {}", secs.join(" ; ")));
                     v.push(format!("rd {} ; t: ; ops: ?2 o2:{we} ?2 r2:a u:a ?2 r2:b u:b ?2", lines_of.join(" ; ")));
+                }
+            }
+        }
+        // ---- exhaustive: characters of the categories 1-8 inside a name, with the near-miss files
+        for sp in ["_", "&", "#", "^", "$", "{", "}"] {
+            for (k, w) in [format!("ch{sp}one"), format!("ch{sp}one.tex"), format!("d/ch{sp}one"), format!("ch{sp}"), format!("{sp}one.dat")].iter().enumerate() {
+                let target = if w.rsplit('/').next().unwrap().contains('.') { w.clone() } else { format!("{w}.tex") };
+                let mut disk: Vec<String> = vec![target.clone(), "ch.tex".into(), "ch".into(), "one.tex".into(), "d/ch.tex".into(), "d.tex".into(), ".dat".replace('.', "one.")];
+                disk.dedup();
+                for variant in 0..2 {
+                    let secs: Vec<String> = disk
+                        .iter()
+                        .enumerate()
+                        .filter(|(_, l)| variant == 0 || **l != target)
+                        .map(|(j, l)| format!("F:{}+: {} / {} /", encode_name(l), (b'A' + j as u8) as char, (b'K' + k as u8) as char))
+                        .collect();
+                    let we = encode_name(w);
+                    v.push(format!("in main+: Y i:{we} Z / ; {}", secs.join(" ; ")));
+                    v.push(format!("in main+: Y i:{we} ! \\relax Z / ; {}", secs.join(" ; ")));
+                    v.push(format!("rd {} ; t: ; ops: ?2 o2:{we} ?2 r2:a u:a ?2", secs.join(" ; ")));
                 }
             }
         }
